@@ -129,6 +129,18 @@ macro_rules! space_pair_checks {
                     // the other measurable types: a Line is its one segment, a MultiLineString the sum of its members
                     let line = geo::Line::new(pa.0, pb.0);
                     let mls = geo::MultiLineString(vec![ls.clone(), LineString::from(vec![pb, pa]), LineString::<f64>(vec![])]);
+                    // members without a segment (empty, one coordinate) at the front and in the middle must not hide the members after them
+                    for (pos, degenerate) in [(0usize, LineString::<f64>(vec![])), (1, LineString::<f64>(vec![])), (0, LineString::from(vec![mid])), (1, LineString::from(vec![mid]))] {
+                        let mut members = vec![ls.clone(), LineString::from(vec![pb, pa])];
+                        let what = if degenerate.0.is_empty() { "an empty" } else { "a one-coordinate" };
+                        members.insert(pos, degenerate);
+                        acc.evals += 1;
+                        if let Ok(lm) = guard(|| sp.length(&geo::MultiLineString(members))) {
+                            if (lm - (l + d2)).abs() > 1e-6 * scale {
+                                acc.viol(format!("{} length of a MultiLineString with {} member {} is not the sum of its members", name, what, if pos == 0 { "first" } else { "in the middle" }), idx, || w(format!("length={} sum={}", lm, l + d2)));
+                            }
+                        }
+                    }
                     if let Ok((ll, lm)) = guard(|| (sp.length(&line), sp.length(&mls))) {
                         acc.evals += 2;
                         if (ll - d).abs() > 1e-6 * scale {
@@ -181,6 +193,29 @@ macro_rules! space_dest_checks {
     ($acc:expr, $idx:expr, $name:expr, $sp:expr, $a:expr, $scale:expr) => {{
         let (acc, idx, name, sp, a, scale): (&mut Acc, usize, &str, _, (f64, f64), f64) = ($acc, $idx, $name, $sp, $a, $scale);
         let pa = Point::new(a.0, a.1);
+        // journeys of several times the circumference (a loxodrome winds around the globe any number of times): the result must still be a lon/lat in
+        // range and must not depend on how the bearing is written
+        // (a loxodrome that is not a parallel ends at a pole after a finite distance, so for Rhumb only due east / due west can be prolonged at will)
+        for brg in [90.0, 270.0, 80.0, 45.0, 135.0, 100.0] {
+            if name.starts_with("Rhumb") && brg != 90.0 && brg != 270.0 {
+                continue;
+            }
+            for dist in [2.0e7, 4.5e7, 1.0e8, 3.3e8, 1.0e9] {
+                let d = dist * scale;
+                acc.evals += 2;
+                let w = |s: String| json!({"space": name, "a": [a.0, a.1], "bearing": brg, "distance": d, "detail": s});
+                match guard(|| (sp.destination(pa, brg, d), sp.destination(pa, brg - 360.0, d))) {
+                    Err(e) => acc.viol(format!("{} destination panic (long journey)", name), idx, || w(e)),
+                    Ok((p, q)) => {
+                        if !(p.x() >= -180.0 && p.x() <= 180.0 && p.y() >= -90.0 && p.y() <= 90.0) {
+                            acc.viol(format!("{} destination of a long journey outside lon [-180,180] / lat [-90,90]", name), idx, || w(format!("{:?}", p)));
+                        } else if !(sp.distance(p, q) <= 1e-3 * scale * (dist / 1.0e6)) {
+                            acc.viol(format!("{} destination of a long journey is not 360-periodic in the bearing", name), idx, || w(format!("{:?} vs {:?}", p, q)));
+                        }
+                    }
+                }
+            }
+        }
         for brg in [-90.0, 0.0, 45.0, 359.999, 360.0, 450.0, 123.0] {
             for dist in [0.0, 1.0, 1.0e5, 1.0e6, -1000.0] {
                 let d = dist * scale;
